@@ -256,6 +256,43 @@ fn depth_case(n: u64) -> (String, Option<Value>) {
     (src, extra)
 }
 
+/// run-time value chains: a loop applies one lazy wrapping step to an accumulator N times, then the
+/// result is measured, iterated, compared, printed in part and dropped
+const ACC_STEPS: &[(&str, &str, &str)] = &[
+    ("append", "[]", "ns.acc + [i]"),
+    ("prepend", "[]", "[i] + ns.acc"),
+    ("pair_in_front", "[]", "([] + []) + ns.acc"),
+    ("pair_behind", "[]", "ns.acc + ([] + [])"),
+    ("append_then_concat_empty", "[]", "(ns.acc + [i]) + []"),
+    ("both_sides", "[]", "([i] + ns.acc) + ([i] + [i])"),
+    ("chain_filter_append", "[]", "ns.acc|chain([i])"),
+    ("chain_filter_prepend", "[]", "[i]|chain(ns.acc)"),
+    ("slice_of_concat", "[]", "(ns.acc + [i])[0:]"),
+    ("slice_only", "[1, 2, 3]", "ns.acc[0:]"),
+    ("reverse", "[1, 2, 3]", "ns.acc|reverse"),
+    ("map_filter", "[1, 2, 3]", "ns.acc|map('int')"),
+    ("select_filter", "[1, 2, 3]", "ns.acc|select"),
+    ("unique_then_append", "[]", "(ns.acc|unique) + [i]"),
+    ("items_of_dict", "{}", "dict(ns.acc|items)"),
+    ("dict_merge", "{}", "dict(ns.acc, k=i)"),
+    ("string_concat", "''", "ns.acc ~ 'a'"),
+    ("string_add", "''", "ns.acc + 'a'"),
+    ("string_slice", "'abc'", "ns.acc[0:]"),
+    ("tuple_concat", "()", "ns.acc + (i,)"),
+    ("batch_first", "[1, 2, 3]", "ns.acc|batch(3)|first"),
+    ("zip_unzip", "[1, 2, 3]", "ns.acc|zip(ns.acc)|map('first')"),
+];
+const ACC_COUNTS: &[usize] = &[33, 1_000, 30_000];
+
+fn acc_case(n: u64) -> String {
+    let (_, init, step) = ACC_STEPS[(n as usize) / ACC_COUNTS.len()];
+    let count = ACC_COUNTS[(n as usize) % ACC_COUNTS.len()];
+    format!(
+        "{{% set ns = namespace(acc={}) %}}{{% for i in range({}) %}}{{% set ns.acc = {} %}}{{% endfor %}}{{{{ ns.acc|length }}}}{{% for x in ns.acc %}}{{% endfor %}}{{{{ ns.acc == ns.acc }}}}{{{{ ns.acc|first }}}}{{{{ ns.acc|last }}}}{{{{ (ns.acc|string)[:10] }}}}",
+        init, count, step
+    )
+}
+
 const OPS: &[&str] = &["+", "-", "*", "/", "//", "%", "**", "~", "==", "<", "in", "and"];
 
 fn run_case(family: &str, n: u64, cc: &mut ChildCtx) {
@@ -313,6 +350,9 @@ fn run_case(family: &str, n: u64, cc: &mut ChildCtx) {
                 let _ = t.undeclared_variables(true);
             }
         }
+        "accumulate" => {
+            exercise_template(env, &acc_case(n), &ctx, cc);
+        }
         "programs" => {
             thread_local! { static G: gen::Gen = gen::Gen::new(gen::Opts { depth: 2, max_programs: u64::MAX, multi_template: false, loop_controls: true }); }
             let src = G.with(|g| g.program(n).source());
@@ -337,6 +377,7 @@ fn describe(family: &str, n: u64) -> String {
         }
         "depth" => format!("{} depth {}", DEPTH_SHAPES[(n as usize) / DEPTHS.len()], DEPTHS[(n as usize) % DEPTHS.len()]),
         "programs" => gen::Gen::new(gen::Opts { depth: 2, max_programs: u64::MAX, multi_template: false, loop_controls: true }).program(n).source(),
+        "accumulate" => format!("{} x{} :: {}", ACC_STEPS[(n as usize) / ACC_COUNTS.len()].0, ACC_COUNTS[(n as usize) % ACC_COUNTS.len()], acc_case(n)),
         _ => String::new(),
     }
 }
@@ -365,6 +406,7 @@ fn classify(ev: &Event, desc: &str) -> String {
     };
     let input_class = match ev.family.as_str() {
         "depth" => desc.split(' ').next().unwrap_or("").to_string(),
+        "accumulate" => format!("accumulate:{}", desc.split(' ').next().unwrap_or("")),
         "builtins2" | "builtins3" => {
             // the callable name
             let d = desc;
@@ -433,7 +475,12 @@ pub fn main(args: Args) -> i32 {
     // depth probes: opt-level 0 build (largest frames), both stacks; thorough adds the release build
     shards.extend(crash::shards_for("depth", ndepth, 1, "2m", "debug"));
     shards.extend(crash::shards_for("depth", ndepth, 1, "main", "debug"));
+    let nacc = (ACC_STEPS.len() * ACC_COUNTS.len()) as u64;
+    shards.extend(crash::shards_for("accumulate", nacc, 1, "2m", "debug"));
+    shards.extend(crash::shards_for("accumulate", nacc, 1, "2m", "release"));
     if !quick {
+        shards.extend(crash::shards_for("accumulate", nacc, 1, "main", "debug"));
+        shards.extend(crash::shards_for("accumulate", nacc, 1, "main", "release"));
         shards.extend(crash::shards_for("depth", ndepth, 1, "2m", "release"));
         shards.extend(crash::shards_for("depth", ndepth, 1, "main", "release"));
         shards.extend(crash::shards_for("tags", ranked_total(3, TAGS.len() as u64), 20_000, "main", "debug"));
@@ -452,6 +499,7 @@ pub fn main(args: Args) -> i32 {
     acc.count("cases_ops", nops);
     acc.count("cases_depth", ndepth * if quick { 2 } else { 4 });
     acc.count("cases_programs", nprog);
+    acc.count("cases_accumulate", nacc * if quick { 2 } else { 4 });
     // distinct non-trivial: cases that got as far as rendering or a render error (not a load error)
     let nontrivial = res.outcomes.get("rendered").copied().unwrap_or(0) + res.outcomes.get("render error").copied().unwrap_or(0) + res.outcomes.get("expr ok").copied().unwrap_or(0) + res.outcomes.get("expr error").copied().unwrap_or(0);
     acc.nontrivial_counted.store(nontrivial, std::sync::atomic::Ordering::Relaxed);
